@@ -865,7 +865,13 @@ class MemorizedFunc(Logger):
         if self.mmap_mode is not None:
             # Memmap the output at the first call to be consistent with
             # later calls
-            output = self._load_item(call_id, metadata)
+            try:
+                output = self._load_item(call_id, metadata)
+            except Exception:
+                # The result could not be stored, or has already been evicted
+                # or cleared by another user of the cache: return the value
+                # that was just computed.
+                pass
         return output, metadata
 
     def _persist_input(self, duration, call_id, args, kwargs, this_duration_limit=0.5):
